@@ -150,6 +150,8 @@ func (c06) Generate(r *engine.Rand, index int, tier string) *engine.Scenario {
 			page := uint8(r.Range(0xc0, 0xdf))
 			if r.Chance(1, 4) {
 				page = uint8(r.Range(0xe0, 0xf1))
+			} else if r.Chance(1, 4) {
+				page = uint8(r.Range(0x80, 0x9f)) // out of video memory (the LCD is off: plain memory)
 			}
 			sc.Events = append(sc.Events, engine.Event{At: at, K: "bus_w", A: 0xff46, V: page})
 			start := at
@@ -167,7 +169,7 @@ func (c06) Generate(r *engine.Rand, index int, tier string) *engine.Scenario {
 					b = 0x9f
 				}
 				a := src + uint16(b)
-				if r.Chance(1, 4) && a < 0xde00 {
+				if r.Chance(1, 4) && a >= 0xc000 && a < 0xde00 {
 					a += 0x2000 // through the mirror
 				}
 				sc.Events = append(sc.Events, engine.Event{At: start + uint64(c), K: "bus_w", A: a, V: r.Byte()})
